@@ -1105,15 +1105,21 @@ bool Session::send_process(Message *msg) // called from the connection (possibly
 
 		if (!is_dup)
 		{
+			// messages sent with a custom number, without increment, and sequence resets do not consume a number
+			const bool consumes(!msg->get_custom_seqnum() && !msg->get_no_increment() && msg->get_msgtype() != Common_MsgType_SEQUENCE_RESET);
 			if (_persist)
 			{
 				f8_scoped_spin_lock guard(_per_spl, _connection->get_pmodel() == pm_coro); // not needed for coroutine mode
 				if (!msg->is_admin())
 					_persist->put(_next_send_seq, optr); // this message's own encoding, not the (by now cleared) batch buffer
-				_persist->put(_next_send_seq + 1, _next_receive_seq);
-				//cout << "Persisted (send):" << (_next_send_seq + 1) << " and " << _next_receive_seq << endl;
+				// persist the number the next new message will carry and move on to it under the same lock, so
+				// that a concurrent update_persist_seqnums() (inbound thread) cannot store the old number after it
+				_persist->put(_next_send_seq + (consumes ? 1 : 0), _next_receive_seq);
+				if (consumes)
+					++_next_send_seq;
+				//cout << "Persisted (send):" << _next_send_seq << " and " << _next_receive_seq << endl;
 			}
-			if (!msg->get_custom_seqnum() && !msg->get_no_increment() && msg->get_msgtype() != Common_MsgType_SEQUENCE_RESET)
+			else if (consumes)
 			{
 				++_next_send_seq;
 				//cout << "Seqnum now:" << _next_send_seq << " and " << _next_receive_seq << endl;
